@@ -180,7 +180,7 @@ class Check:
             cmd += ["-tags", ",".join(tags)]
         if os.environ.get("VERIF_COVER"):
             # development aid (bin/coverage): which statements of the library do the drivers execute at all?
-            cmd += ["-cover", "-coverpkg=github.com/jub0bs/cors/..."]
+            cmd += ["-cover", "-coverpkg=./...,github.com/jub0bs/cors/..."]
         cmd.append(".")
         env = dict(os.environ, **GOENV)
         env["GOCACHE"] = os.environ.get("GOCACHE", os.path.expanduser("~/.cache/go-build"))
